@@ -204,6 +204,38 @@ def read_to_string_rules(facts, rep, w, D, rule="R04.5"):
                 n += 2
                 rep.ob(rule, b.id, "reads from self.open_file()", okr, fmt(recv)[:60], s.line)
                 rep.ob(rule, b.id, "only after a file-type guard", okt, "", s.line)
+    # ... and the string that was filled is handed out as it is: no other call borrows it mutably (drain / truncate / retain /
+    # replace_range / a helper taking `&mut String` — stripping a BOM, normalising line ends) between the read and the return
+    for cb in pr.inter.code_bodies(b):
+        def root_local(l, depth=6):
+            """the local a chain of `&mut` / reborrow temporaries points at"""
+            while depth > 0:
+                depth -= 1
+                ds = [st for blk in cb.blocks if not blk.cleanup for st in blk.stmts if st.kind == "assign" and st.lhs.is_local() and st.lhs.local == l]
+                if len(ds) == 1 and ds[0].rv.kind == "ref" and ds[0].rv.mut:
+                    l = ds[0].rv.place.local
+                    continue
+                if len(ds) == 1 and ds[0].rv.kind == "use" and ds[0].rv.ops[0].place is not None and "&mut" in cb.local_ty(l):
+                    l = ds[0].rv.ops[0].place.local
+                    continue
+                break
+            return l
+        bufs = set()
+        for s in pr.inter.sites(cb):
+            if sname(s.path) == "read_to_string" and not (s.self_ty or "").endswith("VfsPath") and len(s.args) == 2 and s.args[1].place is not None:
+                bufs.add(root_local(s.args[1].place.local))
+        for buf in bufs:
+            others = []
+            for s in pr.inter.sites(cb):
+                if sname(s.path) == "read_to_string" and not (s.self_ty or "").endswith("VfsPath"):
+                    continue
+                for a in s.args:
+                    if a.place is not None and a.place.is_local() and "&mut" in cb.local_ty(a.place.local) and root_local(a.place.local) == buf:
+                        others.append((s.short, s.line))
+            n += 1
+            rep.ob(rule, b.id, "the string that was read is returned unmodified", not others, "" if not others else
+                   "%s mutates the string between Read::read_to_string and the return: the result is not the file's content for "
+                   "every byte string" % others[0][0], others[0][1] if others else b.span)
     # the content is whatever the handle yields up to its end: a read bounded by the length metadata() reported a moment ago
     # (read_exact / take(len)) returns a value the file never had when it was rewritten in between
     rep.ob(rule, b.id, "read_to_string reads the handle to its end", n >= 2, "" if n >= 2 else
